@@ -32,6 +32,7 @@ def run(ctx):
     ctx.step(check_guarded_fields, ctx, "C18.guard", CLS)
     ctx.step(onecs, ctx)
     ctx.step(pair, ctx)
+    ctx.step(fulfill_all, ctx)
     ctx.step(dtor, ctx)
     ctx.step(query, ctx)
     ctx.step(common.raii_only, ctx, "C18.raii", ["DelayedObjects.hpp"], floor=5)
@@ -186,6 +187,65 @@ def pair(ctx):
                        "mutation at %s on the not-found path" % f.loc(bad[0]), fn=f.label, inst=f.qname)
     if seen < 5:
         ctx.broken("only %d functions of DelayedObjects call set_value (5 confirmed by hand)" % seen)
+
+
+def fulfill_all(ctx):
+    """fulfillAllPromises: on every path to the exit each pending map is either traversed by its satisfy-loop or known
+    to be empty (an early return that looks at one map only leaves the other map's futures hanging)"""
+    rid = "C18.fulfill-all"
+    ctx.rule(rid, "fulfillAllPromises reaches the satisfy-loop of BOTH pending maps on every path, unless that map is "
+             "known empty on the path", floor=2)
+    fs = list(ctx.fb.functions(rec=CLS, name="fulfillAllPromises"))
+    if not fs:
+        ctx.broken("DelayedObjects::fulfillAllPromises not instantiated")
+    for f in fs:
+        loops = {}     # map -> set of blocks of its range-for condition
+        for st in f.stmts.values():
+            if st["k"] == "CXXForRangeStmt":
+                ri = f.s(st.get("range_init"))
+                mp = None
+                if ri is not None:
+                    for x in f.descendants(ri):
+                        if x["k"] == "MemberExpr" and x["m"].get("is_field") and x["m"].get("rec") == CLS:
+                            mp = x["m"]["name"]
+                has_set = any(d["k"] == "CXXMemberCallExpr" and d["callee"]["name"] == "set_value"
+                              for d in f.descendants(f.s(st["body"])))
+                if mp in PENDING and has_set:
+                    hb = [b.id for b in f.blocks.values() if b.term and b.term.get("s") == st["id"]]
+                    loops.setdefault(mp, set()).update(hb)
+        for mp in PENDING:
+            if mp not in loops:
+                ctx.ob(rid, False, f.where, "fulfillAllPromises has a satisfy-loop over %s" % mp, "no range-for with set_value over it",
+                       fn=f.label, inst=f.qname)
+        try:
+            ps = paths(f)
+        except TooManyPaths:
+            ctx.broken("too many paths in " + f.label)
+        bad = {}
+        for p in ps:
+            if p[-1][0] != f.exit:
+                continue
+            visited = {b for b, _c in p}
+            empty = set()
+            for b, choice in p:
+                blk = f.blocks[b]
+                if blk.term and blk.term.get("cond") and choice is not None and len(blk.succs) == 2:
+                    c = unwrap(f, f.s(blk.term["cond"]))
+                    val = (choice == 0)
+                    while c is not None and c["k"] == "UnaryOperator" and c["op"] == "!":
+                        val = not val
+                        c = unwrap(f, f.children(c)[0])
+                    if c is not None and c["k"] == "CXXMemberCallExpr" and c["callee"]["name"] == "empty" and val:
+                        mp = (path(f, f.s(c["obj"])) or "")[5:]
+                        empty.add(mp)
+            for mp, hb in loops.items():
+                if not (visited & hb) and mp not in empty:
+                    bad[mp] = True
+        for mp in loops:
+            ok = mp not in bad
+            ctx.ob(rid, ok, f.where, "every path of fulfillAllPromises satisfies what is pending in %s" % mp,
+                   "" if ok else "a path returns without traversing %s and without knowing it is empty: its futures never "
+                   "receive the value" % mp, fn=f.label, inst=f.qname)
 
 
 def dtor(ctx):
